@@ -71,21 +71,26 @@ type sSc struct {
 	Dir    sDir   `json:"dir"`
 	Ans    string `json:"ans"`
 	Die    int    `json:"die"`
+	Dk     string `json:"dk"`
 }
 
 type sConc struct {
-	Cmdline *string           `json:"cmdline"` // SSH_ORIGINAL_COMMAND (null = unset)
-	Logname *string           `json:"logname"`
-	Sshconn *string           `json:"sshconn"`
-	Argv    []string          `json:"argv"`
-	Kidmap  map[string]string `json:"kidmap"`  // key_identifiers of the handler section
-	Lnfile  string            `json:"lnfile"`  // base name of the registered-key files
-	Hvar    string            `json:"hvar"`    // variant of an absent / undecodable handler section
-	Tvar    string            `json:"tvar"`    // variant of a broken TLS file
-	Badjson string            `json:"badjson"` // content of an undecodable configuration file
-	Rt      int               `json:"rt"`      // request_timeout
-	Code    int               `json:"code"`    // gRPC status code of "rpc" endpoints
-	Extra   map[string]string `json:"extra"`   // further environment variables
+	Cmdline *string                `json:"cmdline"` // SSH_ORIGINAL_COMMAND (null = unset)
+	Logname *string                `json:"logname"`
+	Sshconn *string                `json:"sshconn"`
+	Argv    []string               `json:"argv"`
+	Kidmap  map[string]string      `json:"kidmap"`  // key_identifiers of the handler section
+	Lnfile  string                 `json:"lnfile"`  // base name of the registered-key files
+	Hvar    string                 `json:"hvar"`    // variant of an absent / undecodable handler section
+	Tvar    string                 `json:"tvar"`    // variant of a broken TLS file
+	Badjson string                 `json:"badjson"` // content of an undecodable configuration file
+	Rt      int                    `json:"rt"`      // request_timeout
+	Code    int                    `json:"code"`    // gRPC status code of "rpc" endpoints
+	Ptt     string                 `json:"ptt"`     // per_try_timeout of the signer section
+	Sockvar string                 `json:"sockvar"` // variant of an unset SSH_AUTH_SOCK: "unset" | "empty" | "blank"
+	Cfgx    map[string]interface{} `json:"cfgx"`    // further top-level members of the configuration file
+	Hsecx   map[string]interface{} `json:"hsecx"`   // further members of the handler section
+	Extra   map[string]string      `json:"extra"`   // further environment variables
 }
 
 type sRun struct {
@@ -428,6 +433,14 @@ func (s *sStub) PostUserSSHCertificate(ctx context.Context, in *pb.SSHCertificat
 			code = int(codes.Internal)
 		}
 		return nil, status.Error(codes.Code(code), "verif: scripted failure")
+	case "hang": // no answer before the caller gives up
+		rs.mu.Unlock()
+		select {
+		case <-ctx.Done():
+		case <-time.After(15 * time.Second):
+		}
+		rs.mu.Lock()
+		return nil, status.Error(codes.DeadlineExceeded, "verif: too late")
 	case "unparsable":
 		return &pb.SSHKey{Key: "ssh-ed25519-cert-v01@openssh.com AAAA-not-a-key verif\n### nothing to parse here\n"}, nil
 	}
@@ -607,12 +620,34 @@ func (a *sAgent) serve(c net.Conn) {
 		rs.mu.Lock()
 		rs.nreq++
 		n, die, ans := rs.nreq, rs.sc.Die, rs.sc.Ans
+		failOnly := rs.sc.Dk == "fail"
 		rs.mu.Unlock()
 		kind := "raw"
 		if len(req) > 0 {
 			kind = verifh.ReqKind(req[0])
 		}
-		if die != 0 && n >= die { // the connection dies on this request; a challenge is still recorded as asked
+		if die != 0 && n == die && failOnly { // this request is answered with a failure, the connection stays
+			if kind == "sign" {
+				var sr signReq
+				ch := sChal{Key: "other"}
+				if ssh.Unmarshal(req, &sr) == nil {
+					switch {
+					case bytes.Equal(sr.KeyBlob, rs.U.Pub.Marshal()):
+						ch.Key = "U"
+					case bytes.Equal(sr.KeyBlob, rs.O.Pub.Marshal()):
+						ch.Key = "O"
+					}
+				}
+				rs.mu.Lock()
+				rs.chal = append(rs.chal, ch)
+				rs.mu.Unlock()
+			}
+			if err := verifh.WriteFrame(c, []byte{5}); err != nil {
+				return
+			}
+			continue
+		}
+		if die != 0 && n >= die && !failOnly { // the connection dies on this request; a challenge is still recorded as asked
 			if kind == "sign" {
 				var sr signReq
 				ch := sChal{Key: "other"}
@@ -895,6 +930,13 @@ func (w *sWorker) runCase(c *sCase, idx int) (recs []interface{}, err error) {
 			env = append(env, "SSH_AUTH_SOCK="+ag.path)
 		case "dead":
 			env = append(env, "SSH_AUTH_SOCK="+deadSock)
+		case "unset":
+			switch cc.Sockvar {
+			case "empty":
+				env = append(env, "SSH_AUTH_SOCK=")
+			case "blank":
+				env = append(env, "SSH_AUTH_SOCK=  \t ")
+			}
 		}
 		for k, v := range cc.Extra {
 			env = append(env, k+"="+v)
@@ -1008,6 +1050,9 @@ func (w *sWorker) config(sc *sSc, cc *sConc, keyDir, rdir string) []byte {
 		kids[k] = v
 	}
 	section := map[string]interface{}{"pub_key_dir": keyDir, "key_identifiers": kids, "cert_validity_sec": sc.Val}
+	for k, v := range cc.Hsecx {
+		section[k] = v
+	}
 	switch sc.Hsec {
 	case "present":
 		cfg["handlers"] = map[string]interface{}{"paranoids.regular": section}
@@ -1033,6 +1078,9 @@ func (w *sWorker) config(sc *sSc, cc *sConc, keyDir, rdir string) []byte {
 	}
 	signer := map[string]interface{}{"tls_client_key_file": w.pki.cliKey, "tls_client_cert_file": w.pki.cliCert,
 		"tls_ca_cert_files": []string{w.pki.caFile}, "crypki_port": w.lane.port, "retries": 1, "per_try_timeout": "5s"}
+	if cc.Ptt != "" {
+		signer["per_try_timeout"] = cc.Ptt
+	}
 	switch sc.TLS {
 	case "nocert":
 		if cc.Tvar == "key" {
@@ -1055,6 +1103,9 @@ func (w *sWorker) config(sc *sSc, cc *sConc, keyDir, rdir string) []byte {
 		signer["crypki_endpoints"] = eps
 	}
 	cfg["signer"] = signer
+	for k, v := range cc.Cfgx {
+		cfg[k] = v
+	}
 	b, err := json.MarshalIndent(cfg, "", " ")
 	must(err)
 	return b
